@@ -639,6 +639,11 @@ def mutate_after(rng, tree, path, pformat):
         if node["k"] == "seq":
             keep = node["c"][:i + 1]
             tail = node["c"][i + 1:]
+            if node["kind"] == "Source" and not any(c["k"] == "src" for c in keep):
+                # the source element of a Source comes later: keep the elements up to it (a Source
+                # without a first data element that generates the flow cannot be constructed at all)
+                j = next(j for j, c in enumerate(tail) if c["k"] == "src")
+                keep, tail = keep + tail[:j + 1], tail[j + 1:]
             r = rng.random()
             if r < 0.4:
                 tail = [rand_tree(rng, 1, pformat) for _ in range(rng.randint(0, 2))]
